@@ -1,6 +1,7 @@
 import Driver.Util
 import NutsModel.C17.TokenPolicy
 import NutsModel.C17.Framing
+import NutsModel.C17.Fold
 import NutsModel.Facts.C17
 open Lean Nuts.Drv Nuts.C17 Nuts
 
@@ -61,7 +62,20 @@ def stepBytes (j : Json) : Option (List String) :=
     some [(Framing.signatureAlgorithm Facts.C17.ecAlgBitsTable Facts.C17.sigAlgRsa Facts.C17.sigAlgEd kind).getD "error"]
   | _ => none
 
+/-- a parsed JSON document as the tree the guard walks (member order: the parser's; the guard's verdict does not depend on it) -/
+instance : Inhabited Fold.JVal := ⟨.leaf⟩
+
+partial def toJVal : Json → Fold.JVal
+  | .arr a => .arr (a.toList.foldr (fun x r => .cons (toJVal x) r) .nil)
+  | .obj kvs => .obj (kvs.foldl (fun r k v => .cons k (toJVal v) r) .nil)
+  | _ => .leaf
+
+def modelFold : String → String := Fold.foldName (Fold.simpleFold id)
+
 def step (st : Unit) (j : Json) : Unit × List String :=
+  if jStr j "op" == "ambig" then
+    (st, [match Fold.ambVal modelFold (toJVal (jObj j "doc")) with | some _ => "ambiguous" | none => "clean"])
+  else
   match stepBytes j with
   | some r => (st, r)
   | none =>
@@ -114,6 +128,15 @@ def step (st : Unit) (j : Json) : Unit × List String :=
                          fits := fun _ _ => jBool v "fits" }
       let didOf := fun (kid : String) => (kid.splitOn "#").headD ""
       vcJsonLdProof E L (jBool v "proofobj") (jStr j "issuer") (jStr v "vm") didOf (jBool v "validat") (jBool v "canon") (jNat v "parts") (jBool v "sigdecodes")
+    | "vcldfold" =>
+      let E : Env := { resolve := fun _ => if jBool v "keyfound" then some "K" else none, embeddedKey := fun _ => none,
+                       verifies := fun _ _ _ => false, verifiesSplit := fun _ _ _ => false }
+      let L : LdEnv := { keyAlg := fun _ => if jStr v "keyalg" == "" then none else some (jStr v "keyalg"),
+                         verifiesDetached := fun _ _ => jBool v "verified",
+                         fits := fun _ _ => jBool v "fits" }
+      let didOf := fun (kid : String) => (kid.splitOn "#").headD ""
+      Fold.vcJsonLdDoc modelFold (jBool v "docok") (jBool v "structvariant") (toJVal (jObj j "doc"))
+        (vcJsonLdProof E L (jBool v "proofobj") (jStr j "issuer") (jStr v "vm") didOf (jBool v "validat") (jBool v "canon") (jNat v "parts") (jBool v "sigdecodes"))
     | "parsejws" =>
       let found := jBools v "keyfound"
       let ver := jBools v "verified"
